@@ -47,7 +47,7 @@ partial def decodeVal (j : Json) : GoVal :=
     .map kk (getB j "nil") (kvs.map fun kv => unhex ((kv.getArrVal? 0).toOption.bind (·.getStr?.toOption) |>.getD "")) (kvs.map fun kv => decodeVal ((kv.getArrVal? 1).toOption.getD Json.null))
   | "struct" =>
     let fs := arr "v"
-    .struct (fs.map fun f => (((f.getArrVal? 0).toOption.bind (·.getStr?.toOption) |>.getD "").toUTF8.toList, ((f.getArrVal? 1).toOption.bind (·.getNat?.toOption) |>.getD 1) == 1))
+    .struct (fs.map fun f => (((f.getArrVal? 0).toOption.bind (·.getStr?.toOption) |>.getD "").toUTF8.toList, ((f.getArrVal? 1).toOption.bind (·.getNat?.toOption) |>.getD 1) != 0))   -- 1 exported, 2 exported with static type any
             (fs.map fun f => decodeVal ((f.getArrVal? 2).toOption.getD Json.null))
   | "unexp" =>
     let fs := (arr "v").map decodeVal
